@@ -7,6 +7,7 @@ logged as a label of Model/Sched.lean by wrapping instance attributes (no change
 observed trace: every label must be enabled and now / timetable / id sets / storage timestamps / wake flag / scheduler timer
 must agree at every observation point. Monitors check the property on the implementation alone.
 """
+import os
 import itertools
 
 from harness.core import CaseResult, hit, rng_for
@@ -293,12 +294,19 @@ def run_case(case, model):
         ctx_of = {}          # greenlet -> 's' (inside _check_ready) / 'f' (inside flush)
 
         def check_ready(now):
-            R.log('S' if pools else 's')       # bounded pools: the loop's turn is split by blocking spawns
+            R.log('s')       # the loop's turn is two labels: s = _check_ready (its spawns may block on a full pool), z = _wait_ready
             ctx_of[gevent.getcurrent()] = 's'
             try:
                 return orig_check(now)
             finally:
                 ctx_of.pop(gevent.getcurrent(), None)
+
+        orig_wait_ready = q._wait_ready
+
+        def wait_ready(now):
+            R.log('z')
+            return orig_wait_ready(now)
+        q._wait_ready = wait_ready
 
         class LockProxy(object):
             # the label of flush() is logged when flush has the lock, i.e. when it takes the entries out
@@ -373,6 +381,7 @@ def run_case(case, model):
             return orig_addq(entry)
 
         def flush():
+            R.log('p')        # flush() begins with wake.set(); wake.clear(); the label f follows when it has the lock
             ctx_of[gevent.getcurrent()] = 'f'
             try:
                 return orig_flush()
@@ -410,6 +419,9 @@ def run_case(case, model):
             settle()
             R.actions.append(action)
             R.chunks.append((R.labels, snapshot()))
+            if os.environ.get('VERIF_C12_TRACE'):
+                import sys
+                sys.stderr.write('%-22s %-30s %s\n' % (action, ','.join(R.labels), snapshot()))
             R.labels = []
             monitors(action)
 
@@ -435,13 +447,11 @@ def run_case(case, model):
                     return
                 ts = queued_ids[id]
                 w = q.wake
-                # with bounded pools the scheduler may have been held up in a spawn: late, but it has a timer and will get there
-                late_ok = bool(pools) and w.waiting and w.deadline is not None
-                if ts <= clock.now and not late_ok:
+                if ts <= clock.now:
                     hits.append(hit('c12.due-message-not-attempted', 'a timetable entry is due but the message was not handed to the relay',
                                     observed={'message': k, 'state': snapshot(), 'after': action}))
                     return
-                if w.waiting and (w.deadline is None or (w.deadline > ts and not pools)) and not w.is_set():
+                if w.waiting and (w.deadline is None or w.deadline > ts) and not w.is_set():
                     hits.append(hit('c12.scheduler-sleeps-past-due-time', 'the scheduler sleeps without a timer at or before the first due time',
                                     observed={'message': k, 'state': snapshot(), 'after': action}))
                     return
@@ -638,9 +648,6 @@ def run_case(case, model):
                     mismatch = {'op': 'sched run', 'chunk': i, 'labels': ','.join(ls)[:300], 'model': ms, 'trace': text[:1500]}
                     break
                 continue            # a storage call inside _retry_later is held: the atomic section is split, states are compared after it
-            if pools and not ms.startswith('disabled'):
-                # a scheduler blocked in a spawn on a full pool is neither asleep nor awake: compare the timetable only
-                ms, snap = ms.split(' wake=')[0], snap.split(' wake=')[0]
             if ms != snap:
                 mismatch = {'op': 'sched run', 'chunk': i, 'action': R.actions[i] if i < len(R.actions) else None, 'labels': ','.join(ls)[:300],
                             'impl': snap, 'model': ms, 'trace': text[:1500]}
